@@ -128,7 +128,8 @@ def run(run):
                 "arguments, defaults and parser-function branches) x pages, compared with the Coq model and checked for "
                 "return/timeout; (b) every name in PARSER_FUNCTIONS (except the two network-backed ones) x argument vectors from "
                 "a 60-entry pool (empty, blank, non-numeric, huge, negative, operator soup, namespace titles) on 9 page titles; "
-                "(c) random #expr token soups; (d) nesting ladders to depth 100/150; non-trivial = at least one call; "
+                "(c) random #expr token soups; (d) nesting ladders to depth 100/150, acyclic chains of 5-150 distinct templates with "
+                "0-5 parser-function wrappers per level, self-calls with a growing argument under wrappers; non-trivial = at least one call; "
                 "distinct by JSON hash")
     run.trusted = [
         "Coq 8.16.1 kernel; vm_compute to evaluate Model.Expand (loop detection, depth limit) on cyclic libraries",
@@ -236,7 +237,26 @@ def run(run):
         ladders.append({"lib": [["A", "[{{{1|}}}]", False]], "page": "{{a|" * depth + "x" + "}}" * depth, "opts": {}, "title": "Tt", "_timeout": 60})
         ladders.append({"lib": [["A", "[{{{1|}}}]", False]], "page": "{{#if:x|" * depth + "y" + "}}" * depth, "opts": {}, "title": "Tt", "_timeout": 60})
         ladders.append({"lib": [["D", "{{d|{{{1|}}}x}}", False]], "page": "{{d}}", "opts": {}, "title": "Tt", "_timeout": 60})
-    res = lib.run_impl("expandlib", ladders, shards=4)
+    # acyclic chains of distinct templates (nothing for the loop detector to find), every level wrapped in parser functions
+    WRAPS = ["{{#if:x|%s}}", "{{#ifeq:a|a|%s}}", "{{#switch:a|a=%s}}", "{{#if:|n|%s}}", "{{#iferror:ok|e|%s}}"]
+    for length in (5, 40, 60, 99, 150):
+        for nwrap in (0, 1, 3, 5):
+            libr = []
+            for i in range(length):
+                body = "{{c%d|{{{1|}}}%s}}" % (i + 1, "x" if nwrap % 2 else "") if i + 1 < length else "end{{{1|}}}"
+                for j in range(nwrap):
+                    body = WRAPS[(i + j) % len(WRAPS)] % body
+                libr.append(["C%d" % i, body, False])
+            ladders.append({"lib": libr, "page": "{{c0|s}}", "opts": {}, "title": "Tt", "_timeout": 60})
+    for nwrap in (1, 3, 5):
+        body = "{{d|{{{1|}}}x}}"
+        for j in range(nwrap):
+            body = WRAPS[j % len(WRAPS)] % body
+        ladders.append({"lib": [["D", body, False]], "page": "{{d}}", "opts": {}, "title": "Tt", "_timeout": 60})
+    for depth in (30, 60, 120):
+        ladders.append({"lib": [["A", "[{{{1|}}}]", False]], "page": "{{a|{{#if:x|{{#switch:q|q=" * depth + "z" + "}}}}}}" * depth,
+                        "opts": {}, "title": "Tt", "_timeout": 60})
+    res = lib.run_impl("expandlib", ladders, shards=lib.NCPU)
     for c, r in zip(ladders, res):
         run.count(["ladder", c["page"][:40], len(c["page"])], True, "ladder")
         if r.get("outcome") != "ok":
